@@ -1,4 +1,6 @@
--- expect-wf: bad more than 60 upvalues
+-- expect-wf[jit]: bad more than 60 upvalues
+-- expect-wf[5.3]: ok
+-- expect[5.3]: 1830
 do
 local u0 = 0
 local u1 = 1
